@@ -129,6 +129,7 @@ class SnapshotActionContext(FrameCollectorContext, ActionContext):
             }, LocationAction.ActionType.Log))
             # the log fields are part of this snapshot, so they share its variable ids
             context.var_cache = self.var_cache
+            context._collection_config = self.collection_config
             log, watches, log_vars = context.process_log(log_msg)
             snapshot.log_msg = log
             for watch in watches:
